@@ -83,7 +83,7 @@ mod __verif_c16 {
         framing_case(3, 3);
     }
 
-    // @harness tiers=quick,thorough timeout=900
+    // @harness tiers=thorough timeout=2400
     // @encodes distributed::http_client::parse_response
     // @bounds the peer closes early: declared Content-Length 2, one symbolic body byte arrived
     // @oracle a body shorter than the declared Content-Length is an error, never a success
@@ -95,18 +95,11 @@ mod __verif_c16 {
         framing_case(2, 1);
     }
 
-    // @harness tiers=quick,thorough timeout=900
-    // @encodes distributed::http_client::parse_response
-    // @bounds the well-formed message "HTTP/1.1 200 OK CRLF Content-Length: 2 CRLF CRLF ok" cut at EVERY byte offset inside the head (0..=37, iterated concretely)
-    // @oracle a response cut anywhere before the end of its header block is an error (never a success with an empty body)
-    #[kani::proof]
-    #[kani::unwind(48)]
-    #[kani::stub(alloc::fmt::format, no_format)]
-    fn truncated_head_is_an_error() {
+    fn truncated_range(from: usize, to: usize) {
         let msg = b"HTTP/1.1 200 OK\r\nContent-Length: 2\r\n\r\nok";
-        let mut cut = 0usize;
+        let mut cut = from;
         let mut errs = 0usize;
-        while cut < 38 {
+        while cut < to {
             let r = parse_response(&msg[..cut]);
             if r.is_err() {
                 errs += 1;
@@ -115,7 +108,29 @@ mod __verif_c16 {
             std::mem::forget(r);
             cut += 1;
         }
-        kani::cover!(errs == 38);
+        kani::cover!(errs == to - from);
+    }
+
+    // @harness tiers=quick,thorough timeout=900
+    // @encodes distributed::http_client::parse_response
+    // @bounds the well-formed message "HTTP/1.1 200 OK CRLF Content-Length: 2 CRLF CRLF ok" cut at every byte offset 0..=18 (inside the status line and at its CRLF)
+    // @oracle a response cut anywhere before the end of its header block is an error (never a success with an empty body)
+    #[kani::proof]
+    #[kani::unwind(48)]
+    #[kani::stub(alloc::fmt::format, no_format)]
+    fn truncated_in_the_status_line_is_an_error() {
+        truncated_range(0, 19);
+    }
+
+    // @harness tiers=quick,thorough timeout=900
+    // @encodes distributed::http_client::parse_response
+    // @bounds the same message cut at every byte offset 19..=37 (inside the Content-Length header and the CRLF CRLF terminator)
+    // @oracle as truncated_in_the_status_line_is_an_error
+    #[kani::proof]
+    #[kani::unwind(48)]
+    #[kani::stub(alloc::fmt::format, no_format)]
+    fn truncated_in_the_headers_is_an_error() {
+        truncated_range(19, 38);
     }
 
     // @playback
